@@ -57,8 +57,8 @@ def gen_case(rng, idx, kind):
         animals = []
         for (ci, cj) in rng.sample(cells, n_an):
             for _ in range(200):
-                cx = F(rng.randrange(8 * (cj * W // 2 + 20), 8 * ((cj + 1) * W // 2 - 20)), 8)
-                cy = F(rng.randrange(8 * (ci * H // 2 + 20), 8 * ((ci + 1) * H // 2 - 20)), 8)
+                cx = F(rng.randrange(64 * (cj * W // 2 + 20), 64 * ((cj + 1) * W // 2 - 20)), 64)
+                cy = F(rng.randrange(64 * (ci * H // 2 + 20), 64 * ((ci + 1) * H // 2 - 20)), 64)
                 if tie_margin(cx, c["os_c"]) >= F(1, 8) and tie_margin(cy, c["os_c"]) >= F(1, 8):
                     break
             kps = []
@@ -301,7 +301,7 @@ def check(run: core.Run) -> int:
     from sleap_nn.inference.topdown import CentroidCrop
     mods = (torch, OmegaConf, predictors)
     thorough = run.tier == "thorough"
-    n_td, n_si, n_bu = (260, 90, 110) if thorough else (26, 8, 10)
+    n_td, n_si, n_bu = (1200, 400, 500) if thorough else (50, 15, 20)
     cases = []
     d = core.CORPUS / "C12"
     if d.exists():
